@@ -138,8 +138,11 @@ fn serve_inner<
     // seconds, which is all an HTTP-date can express. Otherwise a client echoing the
     // `Last-Modified` it was served would be told the entity changed since.
     let now = SystemTime::now();
+    // An HTTP-date (as `httpdate` formats and parses it) can't express a time before the epoch;
+    // treat such a modification time as unknown rather than panic when formatting it.
     let last_modified = ent
         .last_modified()
+        .filter(|m| *m >= SystemTime::UNIX_EPOCH)
         .map(|m| truncate_to_secs(std::cmp::min(m, now)));
     let etag = ent.etag();
 
